@@ -224,7 +224,13 @@ func (cfg *config) prepareDirs(ctx context.Context) error {
 	if err := os.Remove(alias); err != nil && !os.IsNotExist(err) {
 		return err
 	}
-	if err := os.Symlink(thisDataDir, alias); err != nil {
+	// A relative link target is resolved relative to the directory
+	// that contains the link, not to the current directory.
+	linkTarget, relErr := filepath.Rel(filepath.Dir(alias), thisDataDir)
+	if relErr != nil {
+		linkTarget = thisDataDir
+	}
+	if err := os.Symlink(linkTarget, alias); err != nil {
 		log.Warningf(ctx, "unable to create 'latest' symlink: %v", err)
 	}
 
